@@ -217,9 +217,12 @@ def tiling_identities(ctx):
     f = ctx.func('upload.UploadFilenameInputManager.yield_upload_part_bodies')
     chunk = f.params[2]
     cs = [c for c in own_calls(f.node) if (dotted(c.func) or '').endswith('_get_upload_part_fileobj_with_full_size')]
-    loopv = [norm(l.target) for l in own_nodes(f.node) if isinstance(l, ast.For) and 'range(1,' in norm(l.iter)]
+    npc0 = [c for c in own_calls(f.node) if (dotted(c.func) or '').endswith('_get_num_parts')]
+    npn0 = norm(npc0[0]._parent.targets[0]) if len(npc0) == 1 and isinstance(npc0[0]._parent, ast.Assign) else None
+    pl = part_loop(f, npn0) if npn0 else None
+    loopv = [pl[2]] if pl else []
     sbe = q.resolve_local(f, q.argn(cs[0], 'start_byte')) if len(cs) == 1 and q.argn(cs[0], 'start_byte') is not None else None
-    ok = sbe is not None and bool(loopv) and equal(sbe, f'{chunk} * ({loopv[0]} - 1)')
+    ok = sbe is not None and pl is not None and equal(sbe, f'{chunk} * ({pl[1]})')
     ctx.ob(f, f'start_byte = {chunk} * (part_number - 1)', ok, f'found {norm(sbe)}')
     ok = len(cs) == 1 and sbe is not None and norm(kwarg(cs[0], 'part_size')) == chunk
     ctx.ob(f, f'part handle opened at start_byte with part_size={chunk}', ok, 'the part body must start at its own offset')
@@ -246,15 +249,19 @@ def tiling_identities(ctx):
     ctx.ob(f, f'chunk reader limited to chunk_size={chunk}', len(cr) == 1 and norm(q.argn(cr[0], 'chunk_size', 1)) == chunk, 'each part body must be limited to the part size')
     npc = [c for c in own_calls(f.node) if (dotted(c.func) or '').endswith('_get_num_parts')]
     ctx.ob(f, f'num_parts = _get_num_parts(transfer_future, {chunk})', len(npc) == 1 and norm(q.argn(npc[0], 'part_size', 1)) == chunk, 'the part count must use the same chunk size as the offsets')
-    rng = [l for l in own_nodes(f.node) if isinstance(l, ast.For) and 'range(1,' in norm(l.iter)]
-    ok = len(rng) == 1 and len(npc) == 1 and isinstance(npc[0]._parent, ast.Assign) and norm(rng[0].iter) == f'range(1, {norm(npc[0]._parent.targets[0])} + 1)'
-    ctx.ob(f, 'for part_number in range(1, num_parts + 1)', ok, 'every part 1..n must be produced')
+    ys = [y for y in own_nodes(f.node) if isinstance(y, ast.Yield) and isinstance(y.value, ast.Tuple) and y.value.elts]
+    ok = pl is not None and len(npc) == 1 and bool(ys) and all(q.in_loop(y) is pl[0] and equal(q.inline_locals(f, y.value.elts[0]), pl[2]) for y in ys)
+    ctx.ob(f, 'for part_number in range(1, num_parts + 1)', ok, 'every part 1..n must be produced (and yielded with its own number)')
     g = ctx.func('upload.UploadFilenameInputManager._get_num_parts')
     rets = [x for x in own_nodes(g.node) if isinstance(x, ast.Return)]
     ctx.ob(g, 'int(math.ceil(size / float(part_size)))', len(rets) == 1 and _num_parts_expr_ok(rets[0].value, 'transfer_future.meta.size', 'part_size'), f'{norm(rets[0].value) if rets else None}')
-    d = ctx.func('upload.UploadFilenameInputManager._get_deferred_open_file')
+    # on the fully expanded part-handle helper (whether or not _get_deferred_open_file exists as a helper)
+    d = ctx.expanded().func('upload.UploadFilenameInputManager._get_upload_part_fileobj_with_full_size')
     cs = [c for c in own_calls(d.node) if norm(c.func) == 'DeferredOpenFile']
-    ctx.ob(d, 'DeferredOpenFile(fileobj, start_byte, ...)', len(cs) == 1 and norm(q.argn(cs[0], 'start_byte', 1)) == 'start_byte', 'the handle must seek to the part offset when opened')
+    sb = q.resolve_local(d, q.argn(cs[0], 'start_byte', 1)) if len(cs) == 1 and q.argn(cs[0], 'start_byte', 1) is not None else None
+    kw_ = d.node.args.kwarg.arg if d.node.args.kwarg else None
+    ok_sb = sb is not None and (norm(sb) == 'start_byte' and 'start_byte' in d.params + d.kwonly or norm(sb) == f"{kw_}['start_byte']")
+    ctx.ob(d.qualname, 'DeferredOpenFile(fileobj, start_byte, ...)', ok_sb, 'the handle must seek to the part offset when opened', node=d.node)
     o = ctx.func('utils.DeferredOpenFile._open_if_needed')
     sk = [c for c in own_calls(o.node) if (dotted(c.func) or '') == 'self._fileobj.seek']
     ctx.ob(o, 'seek(self._start_byte) when opening', len(sk) == 1 and norm(sk[0].args[0]) == 'self._start_byte', 'the deferred handle must start at its start byte')
